@@ -1215,8 +1215,8 @@ theorem C01_gadget_range_quad (lin : Lin) (q : Quad) (lb ub : Option Rat) (n : N
 
 /-! ## conditional equality `res ⇔ body = rhs` (cond_eq.h) -/
 
-/-- enforced when `res = 0`: the body is at least eps away from rhs -/
-def neqPred (e b rhs : Rat) : Prop := b ≤ rhs - e ∨ rhs + e ≤ b
+/-- enforced when `res = 0`: the body is outside the open interval `(lo, hi)` around rhs -/
+def neqPred (lo hi b : Rat) : Prop := b ≤ lo ∨ hi ≤ b
 
 theorem condEqPos_core (res : Var) (body : Lin) (rhs : Rat) (B : Bnds) (y : Asg)
     (hne : body.isEmpty = false) (hr : y res = 0 ∨ y res = 1) (hd : inDom B y res) :
@@ -1249,7 +1249,7 @@ theorem condEqNeg_sound (res : Var) (body : Lin) (rhs : Rat) (B : Bnds) (o : Opt
     (hne : body.isEmpty = false) (hr : y res = 0 ∨ y res = 1) (hd : inDom B y res)
     (haux : auxOk n y (condEqNeg res body rhs B o n).vars)
     (hc : ∀ c ∈ (condEqNeg res body rhs B o n).cons, c.sat y) :
-    y res = 0 → neqPred (cmpEpsOf o (linBnd B body).2.2) (evalLin y body) rhs := by
+    y res = 0 → neqPred (condEqLo o (linBnd B body).2.2 rhs) (condEqHi o (linBnd B body).2.2 rhs) (evalLin y body) := by
   intro h0
   simp only [condEqNeg, hne, Bool.false_eq_true, if_false] at haux hc
   by_cases hcond : (!(B res).isFixed || (B res).fixedVal == 0) = true
@@ -1272,12 +1272,13 @@ theorem condEqNeg_sound (res : Var) (body : Lin) (rhs : Rat) (B : Bnds) (o : Opt
 theorem condEqNeg_complete (res : Var) (body : Lin) (rhs : Rat) (B : Bnds) (o : Opts) (n : Nat) (x : Asg)
     (hne : body.isEmpty = false) (hrn : res < n) (hb : ∀ p ∈ body, p.2 < n)
     (hr : x res = 0 ∨ x res = 1)
-    (h : x res = 0 → neqPred (cmpEpsOf o (linBnd B body).2.2) (evalLin x body) rhs) :
+    (h : x res = 0 → neqPred (condEqLo o (linBnd B body).2.2 rhs) (condEqHi o (linBnd B body).2.2 rhs) (evalLin x body)) :
     ∃ x' : Asg, agree n x x' ∧ auxOk n x' (condEqNeg res body rhs B o n).vars ∧
       ∀ c ∈ (condEqNeg res body rhs B o n).cons, c.sat x' := by
-  let eps := cmpEpsOf o (linBnd B body).2.2
-  let f1 : Rat := if x res = 0 ∧ evalLin x body ≤ rhs - eps then 1 else 0
-  let f2 : Rat := if x res = 0 ∧ ¬ evalLin x body ≤ rhs - eps then 1 else 0
+  let lo := condEqLo o (linBnd B body).2.2 rhs
+  let hi := condEqHi o (linBnd B body).2.2 rhs
+  let f1 : Rat := if x res = 0 ∧ evalLin x body ≤ lo then 1 else 0
+  let f2 : Rat := if x res = 0 ∧ ¬ evalLin x body ≤ lo then 1 else 0
   refine ⟨fun v => if v = n then f1 else if v = n + 1 then f2 else x v, ?_, ?_, ?_⟩
   · intro v hv
     have h1 : v ≠ n := Nat.ne_of_lt hv
@@ -1308,21 +1309,21 @@ theorem condEqNeg_complete (res : Var) (body : Lin) (rhs : Rat) (B : Bnds) (o : 
       rcases hr with h0 | h0
       · have hp := h h0
         unfold neqPred at hp
-        by_cases hle : evalLin x body ≤ rhs - eps
+        by_cases hle : evalLin x body ≤ lo
         · simp [f1, f2, h0, hle]; grind
-        · have : rhs + eps ≤ evalLin x body := by rcases hp with hp | hp <;> grind
+        · have : hi ≤ evalLin x body := by rcases hp with hp | hp <;> grind
           simp [f1, f2, h0, hle]; grind
       · have hn0 : ¬ x res = 0 := by rw [h0]; grind
         simp [f1, f2, hn0, h0]; grind
     · intro c hc; exact absurd hc (by simp)
 
 /-- what `CondEQConverter_MIP` emits (cases converted by `Base::Convert`): `res = 1 ⇒ body = rhs` for a positive
-part of the context, `res = 0 ⇒ body ≤ rhs - eps ∨ body ≥ rhs + eps` (two fresh binaries) for a negative part -/
+part of the context, `res = 0 ⇒ body ≤ lo ∨ body ≥ hi` (two fresh binaries; `lo/hi = condEqLo/condEqHi`) for a negative part -/
 theorem C01_gadget_condeq_emits (res : Var) (body : Lin) (rhs : Rat) (ctx : Ctx) (B : Bnds) (o : Opts) (n : Nat)
     (hne : body.isEmpty = false) (hrn : res < n) (hb : ∀ p ∈ body, p.2 < n) :
     Exact (gCondEq res body rhs ctx B o n) n (condDom B res)
       (fun x => (ctx.eff.hasPos = true → x res = 1 → evalLin x body = rhs) ∧
-                (ctx.eff.hasNeg = true → x res = 0 → neqPred (cmpEpsOf o (linBnd B body).2.2) (evalLin x body) rhs)) := by
+                (ctx.eff.hasNeg = true → x res = 0 → neqPred (condEqLo o (linBnd B body).2.2 rhs) (condEqHi o (linBnd B body).2.2 rhs) (evalLin x body))) := by
   have rN := condEqNeg_refusal res body rhs B o n
   have pP := condEqPos_noaux res body rhs B
   constructor
@@ -1364,8 +1365,31 @@ theorem C01_gadget_condeq_emits (res : Var) (body : Lin) (rhs : Rat) (ctx : Ctx)
         (condEqPos_core res body rhs B x hne hr hd).mpr (h1 e1)⟩
     · exact ⟨x, fun _ _ => rfl, by simp [auxOk], by intro c hc; exact absurd hc (by simp)⟩
 
-theorem C01_gadget_condeq_sound (ctx : Ctx) (e b rhs r : Rat) (he : 0 < e) (hr : r = 0 ∨ r = 1)
-    (h : (ctx.eff.hasPos = true → r = 1 → b = rhs) ∧ (ctx.eff.hasNeg = true → r = 0 → neqPred e b rhs)) :
+theorem condEqLo_lt (o : Opts) (isI : Bool) (rhs : Rat) (h : isI = true ∨ 0 < o.cmpEps) : condEqLo o isI rhs < rhs := by
+  unfold condEqLo
+  cases isI
+  · have he : 0 < o.cmpEps := by rcases h with h | h; exact absurd h (by decide); exact h
+    simp [cmpEpsOf]; grind
+  · simp only [if_true]
+    have h1 : ¬ (rhs.ceil ≤ rhs.ceil - 1) := by omega
+    rw [Rat.ceil_le_iff] at h1
+    have : ((rhs.ceil - 1 : Int) : Rat) = (rhs.ceil : Rat) - 1 := by push_cast; rfl
+    rw [this] at h1; grind
+
+theorem condEqHi_gt (o : Opts) (isI : Bool) (rhs : Rat) (h : isI = true ∨ 0 < o.cmpEps) : rhs < condEqHi o isI rhs := by
+  unfold condEqHi
+  cases isI
+  · have he : 0 < o.cmpEps := by rcases h with h | h; exact absurd h (by decide); exact h
+    simp [cmpEpsOf]; grind
+  · simp only [if_true]
+    have := Rat.lt_floor_add_one rhs
+    have e : ((rhs.floor + 1 : Int) : Rat) = (rhs.floor : Rat) + 1 := by push_cast; rfl
+    rw [e] at this; exact this
+
+/-- soundness: whenever the separation bounds straddle rhs (integer body, or eps > 0) what is emitted implies the
+context's reading of `res ⇔ body = rhs` -/
+theorem C01_gadget_condeq_sound (ctx : Ctx) (lo hi b rhs r : Rat) (hlo : lo < rhs) (hhi : rhs < hi) (hr : r = 0 ∨ r = 1)
+    (h : (ctx.eff.hasPos = true → r = 1 → b = rhs) ∧ (ctx.eff.hasNeg = true → r = 0 → neqPred lo hi b)) :
     rel ctx r (b2r (Cmp5.eq.holds b rhs)) := by
   rw [rel_b2r_iff ctx r _ hr]
   obtain ⟨h1, h2⟩ := h
@@ -1374,40 +1398,57 @@ theorem C01_gadget_condeq_sound (ctx : Ctx) (e b rhs r : Rat) (he : 0 < e) (hr :
   unfold neqPred at this
   simp only [Cmp5.holds]; grind
 
-/-- exact for integer bodies when the right-hand side is an integer (eps = 1).
-FULL STATEMENT (any right-hand side) fails: `C01_counterexample_condeq_nonint_rhs`. -/
-theorem C01_gadget_condeq_exact_int_partial (ctx : Ctx) (b rhs r : Rat)
-    (hb : isIntVal b) (hrhs : isIntVal rhs) (hr : r = 0 ∨ r = 1) :
-    ((ctx.eff.hasPos = true → r = 1 → b = rhs) ∧ (ctx.eff.hasNeg = true → r = 0 → neqPred 1 b rhs))
+/-- exact for integer bodies, for EVERY right-hand side (full strength after /repo c58c7b7).
+History: before the fix the bounds were `rhs ∓ 1`; the claim then needed an integer `rhs`
+(`C01_gadget_condeq_exact_int_partial`) and failed otherwise (`C01_counterexample_condeq_nonint_rhs`: body value 1,
+rhs 3/2, res 0 excluded by `body ≤ 1/2 ∨ body ≥ 5/2`); the check re-found it on the real code
+(`b==1 or not (2*x == 3)` over integer x) until the fix. -/
+theorem C01_gadget_condeq_exact_int (ctx : Ctx) (o : Opts) (b rhs r : Rat) (hb : isIntVal b) (hr : r = 0 ∨ r = 1) :
+    ((ctx.eff.hasPos = true → r = 1 → b = rhs) ∧
+      (ctx.eff.hasNeg = true → r = 0 → neqPred (condEqLo o true rhs) (condEqHi o true rhs) b))
       ↔ rel ctx r (b2r (Cmp5.eq.holds b rhs)) := by
   constructor
-  · exact C01_gadget_condeq_sound ctx 1 b rhs r (by grind) hr
+  · exact C01_gadget_condeq_sound ctx _ _ b rhs r (condEqLo_lt o true rhs (Or.inl rfl)) (condEqHi_gt o true rhs (Or.inl rfl)) hr
   · rw [rel_b2r_iff ctx r _ hr]
     intro ⟨h1, h2⟩
     refine ⟨fun hp h0 => h1 hp h0, fun hn h0 => ?_⟩
     have hne := h2 hn h0
     simp only [Cmp5.holds] at hne
-    have lt1 : b < rhs → b + 1 ≤ rhs := int_lt_add_one hb hrhs
-    have lt2 : rhs < b → rhs + 1 ≤ b := int_lt_add_one hrhs hb
-    unfold neqPred
-    by_cases hlt : b < rhs
-    · left; have := lt1 hlt; grind
-    · right; have : rhs < b := by grind
-      have := lt2 this; grind
+    obtain ⟨k, rfl⟩ := hb
+    unfold neqPred condEqLo condEqHi
+    simp only [if_true]
+    by_cases hlt : (k : Rat) < rhs
+    · left
+      have h1 : ¬ (rhs.ceil ≤ k) := by rw [Rat.ceil_le_iff]; grind
+      have h2 : k ≤ rhs.ceil - 1 := by omega
+      have : ((k : Int) : Rat) ≤ ((rhs.ceil - 1 : Int) : Rat) := by exact_mod_cast h2
+      have e : ((rhs.ceil - 1 : Int) : Rat) = (rhs.ceil : Rat) - 1 := by push_cast; rfl
+      rw [e] at this; exact this
+    · right
+      have hgt : rhs < (k : Rat) := by grind
+      have h1 : ¬ (k ≤ rhs.floor) := by rw [Rat.le_floor_iff]; grind
+      have h2 : rhs.floor + 1 ≤ k := by omega
+      have : ((rhs.floor + 1 : Int) : Rat) ≤ ((k : Int) : Rat) := by exact_mod_cast h2
+      have e : ((rhs.floor + 1 : Int) : Rat) = (rhs.floor : Rat) + 1 := by push_cast; rfl
+      rw [e] at this; exact this
 
-/-- integer body value 1, right-hand side 3/2 (reachable with `cvt:pre:eqresult=0`, e.g. `b <==> (x + y == 1.5)`
-over integers): `res = 0` is what the original relation demands, but the emitted `body ≤ 1/2 ∨ body ≥ 5/2`
-(eps = 1 for integer bodies) excludes the point. -/
-theorem C01_counterexample_condeq_nonint_rhs :
-    ∃ (b rhs r : Rat), isIntVal b ∧ (r = 0 ∨ r = 1) ∧
-      rel .mix r (b2r (Cmp5.eq.holds b rhs)) ∧
-      ¬ ((Ctx.mix.eff.hasPos = true → r = 1 → b = rhs) ∧ (Ctx.mix.eff.hasNeg = true → r = 0 → neqPred 1 b rhs)) := by
-  refine ⟨1, 3/2, 0, isIntVal_one, Or.inl rfl, ?_, ?_⟩
-  · have : ¬ ((1 : Rat) = 3/2) := by grind
-    simp [rel, req, Ctx.eff, b2r, Cmp5.holds, this]
-  · simp [Ctx.eff, Ctx.hasNeg, Ctx.hasPos, neqPred]; grind
-
-
+/-- continuous bodies: complete at distance ≥ eps from rhs (or on it) -/
+theorem C01_gadget_condeq_complete_margin (ctx : Ctx) (o : Opts) (b rhs r : Rat) (hr : r = 0 ∨ r = 1)
+    (hmargin : b ≤ rhs - o.cmpEps ∨ b = rhs ∨ rhs + o.cmpEps ≤ b)
+    (h : rel ctx r (b2r (Cmp5.eq.holds b rhs))) :
+    (ctx.eff.hasPos = true → r = 1 → b = rhs) ∧
+      (ctx.eff.hasNeg = true → r = 0 → neqPred (condEqLo o false rhs) (condEqHi o false rhs) b) := by
+  rw [rel_b2r_iff ctx r _ hr] at h
+  obtain ⟨h1, h2⟩ := h
+  refine ⟨fun hp h0 => h1 hp h0, fun hn h0 => ?_⟩
+  have hne := h2 hn h0
+  simp only [Cmp5.holds] at hne
+  unfold neqPred condEqLo condEqHi
+  simp [cmpEpsOf]
+  rcases hmargin with hm | hm | hm
+  · left; exact hm
+  · exact absurd hm hne
+  · right; exact hm
 
 /-! ## implication `c ==> t else e`  →  `And(Or(!c, t), Or(c, e))` -/
 
